@@ -65,6 +65,11 @@ impl log::Log for SinkLogger {
         let mut s = Sink(0);
         let _ = write!(s, "{}", record.args());
         LOGGED.fetch_add(1, Relaxed);
+        // an ACTIVE backend is user code that runs in the middle of library calls: while
+        // handling a record it forgets (drops) a Weak the program holds to a dead object
+        if LOG_TRACE.load(Relaxed) == 2 {
+            exec::log_backend_hook();
+        }
     }
     fn flush(&self) {}
 }
@@ -135,7 +140,8 @@ pub struct ExecOut {
     pub delta: [u64; NSTATS],
 }
 
-static LOG_TRACE: std::sync::atomic::AtomicBool = std::sync::atomic::AtomicBool::new(false);
+/// 0 = no backend accepts anything, 1 = passive Trace-level backend, 2 = active Trace-level backend
+static LOG_TRACE: std::sync::atomic::AtomicU32 = std::sync::atomic::AtomicU32::new(0);
 static REUSE: std::sync::atomic::AtomicBool = std::sync::atomic::AtomicBool::new(false);
 /// behaviour of the payload's Clone impl: bit 0 = the copy does not get the stored handles,
 /// bit 1 = the impl releases every other program handle to the object being cloned
@@ -143,7 +149,7 @@ static SHALLOW: std::sync::atomic::AtomicU32 = std::sync::atomic::AtomicU32::new
 
 fn ctx_head(profile: &str, seed: u64, run: u64, exec_i: u64, layouts: &[u64], faults: &Faults) -> String {
     let l: Vec<String> = layouts.iter().map(|x| x.to_string()).collect();
-    let lt = LOG_TRACE.load(Relaxed) as u8;
+    let lt = LOG_TRACE.load(Relaxed);
     let ru = REUSE.load(Relaxed) as u8;
     let sc = SHALLOW.load(Relaxed);
     let build = if cfg!(debug_assertions) { "checked" } else if cfg!(feature = "std") { "relnd" } else { "relnd-nostd" };
@@ -360,7 +366,8 @@ fn do_run(rc: &RunCfg<'_>, run: u64) {
     // payload: in half of the runs its Clone impl yields a copy without the stored handles
     SHALLOW.store(u32::from(Rng(mix(rc.seed, run, 11)).chance(1, 2)) | (u32::from(Rng(mix(rc.seed, run, 14)).chance(1, 4)) << 1), Relaxed);
     let trace = Rng(mix(rc.seed, run, 9)).chance(1, 8);
-    LOG_TRACE.store(trace, Relaxed);
+    let active = trace && Rng(mix(rc.seed, run, 15)).chance(1, 2);
+    LOG_TRACE.store(u32::from(trace) + u32::from(active), Relaxed);
     set_log_level(trace);
     if trace {
         st(St::f_log_trace_runs, 1);
@@ -771,6 +778,8 @@ fn c16_scenario(pname: &str, head: &str, ops: &[Op], f: &Faults, layout_seed: u6
 /// C07, payload-type variety: one typed program on both families.
 fn typed_one(pname: &str, seed: u64, run: u64, ty: u32, prog: &[typed::T], layout_seed: u64) -> u64 {
     alloc::reset(layout_seed, true);
+    // (the history world of an earlier execution must not be visible to the log backend hook)
+    exec::reset(Faults::default(), false, false, false, 0, 0, 0);
     report::reset_flags();
     let text = typed::prog_text(ty, prog);
     let head = format!("{{\"type\":\"violation\",\"profile\":\"{pname}\",\"seed\":{seed},\"run\":{run},\"exec\":0,\"layouts\":[{layout_seed}],\"faults\":\"\",\"ops\":\"{}", json_escape(&text));
@@ -801,6 +810,8 @@ fn typed_one(pname: &str, seed: u64, run: u64, ty: u32, prog: &[typed::T], layou
 /// C01/C03/C04 on a payload type without drop glue (see rawpayload.rs).
 fn raw_one(pname: &str, seed: u64, run: u64, case: &rawpayload::RawCase, layout_seed: u64) -> u64 {
     alloc::reset(layout_seed, true);
+    // (the history world of an earlier execution must not be visible to the log backend hook)
+    exec::reset(Faults::default(), false, false, false, 0, 0, 0);
     report::reset_flags();
     let text = case.text();
     let head = format!("{{\"type\":\"violation\",\"profile\":\"{pname}\",\"seed\":{seed},\"run\":{run},\"exec\":0,\"layouts\":[{layout_seed}],\"faults\":\"\",\"ops\":\"{}", json_escape(&text));
@@ -830,6 +841,8 @@ fn raw_one(pname: &str, seed: u64, run: u64, case: &rawpayload::RawCase, layout_
 /// C07: one program on both families.
 fn diff_one(pname: &str, seed: u64, run: u64, prog: &[diffstd::D], layout_seed: u64) -> u64 {
     alloc::reset(layout_seed, true);
+    // (the history world of an earlier execution must not be visible to the log backend hook)
+    exec::reset(Faults::default(), false, false, false, 0, 0, 0);
     report::reset_flags();
     let text = diffstd::prog_text(prog);
     let head = format!("{{\"type\":\"violation\",\"profile\":\"{pname}\",\"seed\":{seed},\"run\":{run},\"exec\":0,\"layouts\":[{layout_seed}],\"faults\":\"\",\"ops\":\"{}", json_escape(&text));
@@ -1018,8 +1031,8 @@ fn replay(a: &Args) -> i32 {
     let mut faults = Faults::parse(a.get("--faults").unwrap_or("")).unwrap_or_else(|e| die(&e));
     faults.inline = inline;
     report::SOFT_MASK.store(if a.has("--all-oracles") { report::S_ALL } else { report::soft_mask_for(pname) }, Relaxed);
-    LOG_TRACE.store(a.has("--log-trace"), Relaxed);
-    set_log_level(a.has("--log-trace"));
+    LOG_TRACE.store(if a.has("--log-trace") { 1 } else { a.num("--log-mode", 0) as u32 }, Relaxed);
+    set_log_level(a.has("--log-trace") || a.num("--log-mode", 0) > 0);
     SHALLOW.store(if a.has("--shallow-clone") { 1 } else { a.num("--clone-mode", 0) as u32 }, Relaxed);
     REUSE.store(a.has("--addr-reuse"), Relaxed);
     alloc::set_reuse(a.has("--addr-reuse"));
